@@ -17,6 +17,7 @@ LEVEL_TEXT["C07"] = (
     "(tolerance 0; observed deviation 0 on every case, seeds 1-3 quick and seed 1 thorough). "
     "Measured only: rounding -- long-double defining sums with the a-priori bound of the algorithm class (direct: (nh+8) eps sum|terms| per output; "
     "FFT paths: (8+log2 N) eps ||h|| ||x_block|| normwise; MAFilter: (1.5n+4) eps sum_{2n}|x|/n)."
+    " REGENERATED TIE (Props/C07Gen): _conv, FirFilter constructor / conv / process (every tap count >= 1), both FftFilter constructors and FftFilter::process (transform pair, nextpow2, fft(x,n) as parameters) are translated from the C++ on every run and proved equal to the models (firRProcess_eq, firCProcess_eq, fftFilterCtor_eq, fftFilterProcess_eq); T07.1 / T07.2 are restated from the generated constructor through the generated process (gen_fir_from_ctor_*, gen_fftfilter_from_ctor_*). "
 )
 
 PROPS["C07"] = {
@@ -46,7 +47,7 @@ PROPS["C07"] = {
     "technique": "Lean 4 proof over hand-written state-explicit models (generic in the scalar; run at Float by the driver, reasoned about in any "
                  "commutative semiring / at R / at Cx R) + differential correspondence on the real library + long-double convolution-sum oracle",
     "level_note": "rounding is measured, not proved; the models of FirFilter/FftFilter/xcorr/MAFilter are hand-written (loop -> Finset sum, in-place buffer -> "
-                  "functional array) and tied to the code only by the correspondence run; FftFilter/xcorr theorems are relative to the transform pair "
+                  "functional array); FirFilter and FftFilter (constructors and process) are proved equal to the REGENERATED code (Props/C07Gen), xcorr and MAFilter's array form are tied to the code only by the correspondence run; FftFilter/xcorr theorems are relative to the transform pair "
                   "(circular convolution/correlation theorem as explicit hypothesis, proved for the exact DFT pair; fft = DFT is C01/C02); the FFT-path oracle is "
                   "normwise per block because an FFT convolution has no componentwise error bound",
     "trusted_base": TB_COMMON + [
